@@ -203,7 +203,14 @@ def gen(rng, tier):
                 for b1, b2 in pairs:
                     yield dev, pc, (), op, b1, b2
                     for _ in range(1 if quick else 3):
-                        yield dev, pc, label_tables(rng, dev, pc, op, b1, b2), op, b1, b2
+                        t = label_tables(rng, dev, pc, op, b1, b2)
+                        yield dev, pc, t, op, b1, b2
+                        if rng.random() < 0.25 and len(t) >= 2:
+                            # the same names re-pointed (a table of the same size, edited in place by
+                            # DisBench.set_labels the way add_label does): what is shown must follow the new table
+                            vs = [v for _, v in t]
+                            vs = vs[1:] + vs[:1]
+                            yield dev, pc, tuple((n, v) for (n, _), v in zip(t, vs)), op, b1, b2
 
 
 def real_compose(bench, asm_for, dev, pc, labels, op, b1, b2):
@@ -324,9 +331,12 @@ def explore(ctx):
     benches = {dev: make_bench(dev) for dev in DEVNAMES}
     cases = list(gen(rng, ctx.tier))
     dis_lines, reals = [], []
+    recent = {dev: [] for dev in DEVNAMES}      # the last cases run on each long-lived bench (history for replays)
     for dev, pc, labels, op, b1, b2 in cases:
         bench, asm = benches[dev]
         dr, ar = real_compose(bench, asm, dev, pc, labels, op, b1, b2)
+        earlier = list(recent[dev])
+        recent[dev] = (recent[dev] + [[dev, pc, list(map(list, labels)), op, b1, b2]])[-3:]
         reals.append((dr, ar))
         dis_lines.append(ac.dis_line(dev, pc, labels, op, b1, b2))
         total['n'] += 1
@@ -355,7 +365,8 @@ def explore(ctx):
             if total['nfind'][ks] <= 3:
                 total['findings'].append(dict(
                     key=k, what='%s pc=%d bytes=%s labels=%r: %s' % (dev, pc, [op, b1, b2], dict(labels), msg),
-                    replay=dict(case=[dev, pc, list(map(list, labels)), op, b1, b2], real_dis=dr, real_asm=ar)))
+                    replay=dict(case=[dev, pc, list(map(list, labels)), op, b1, b2], real_dis=dr, real_asm=ar,
+                                earlier_cases_on_the_same_parser=earlier)))
         if dec is not None and labels and cls not in total['sampled'] and ar.startswith('ok') and '$' not in dr:
             h = dr.split(' ')[1]
             text = '' if h == '-' else bytes.fromhex(h).decode('latin-1')
@@ -422,6 +433,15 @@ def replay(ctx, path):
     labels = tuple(tuple(x) for x in labels)
     bench, asm = make_bench(dev)
     dr, ar = real_compose(bench, asm, dev, pc, labels, op, b1, b2)
+    if not judge(dev, pc, labels, op, b1, b2, dr, ar) and rp.get('earlier_cases_on_the_same_parser'):
+        # not reproduced on a fresh parser: run the recorded earlier cases first (label tables edited in place)
+        bench, asm = make_bench(dev)
+        bench.force_inplace = True
+        for e in rp['earlier_cases_on_the_same_parser']:
+            real_compose(bench, asm, e[0], e[1], tuple(tuple(x) for x in e[2]), e[3], e[4], e[5])
+        print('history  : %d earlier case(s) on the same parser (label table edited in place)' %
+              len(rp['earlier_cases_on_the_same_parser']))
+        dr, ar = real_compose(bench, asm, dev, pc, labels, op, b1, b2)
     ln = ac.dis_line(dev, pc, labels, op, b1, b2)
     print('request  :', ln)
     print('bytes    :', [op, b1, b2], 'at', pc, 'labels', dict(labels))
